@@ -493,16 +493,20 @@ void load_helper(Archive &ar, integer_class &intgr)
     intgr = integer_class(std::move(int_str));
 }
 template <typename Archive>
-void load_helper(Archive &ar, const rational_class &rat)
+void load_helper(Archive &ar, rational_class &rat)
 {
     integer_class num, den;
     load_helper(ar, num);
     load_helper(ar, den);
+    if (den == 0) {
+        throw SerializationError("invalid rational");
+    }
+    rat = rational_class(num, den);
 }
 // Following is an ugly hack for templated integer classes
 // Not sure why the other clean version doesn't work
 template <typename Archive>
-RCP<const Basic> load_basic(Archive &ar, const URatPoly &b)
+RCP<const Basic> load_basic(Archive &ar, RCP<const URatPoly> &)
 {
     RCP<const Basic> var;
     size_t l;
